@@ -16,7 +16,7 @@ def cls(path):
     return getattr(importlib.import_module("openaerostruct." + mod), name)
 
 
-def shapes_1surf(quick=((2, 3),), thorough=((3, 3), (2, 4), (3, 5))):
+def shapes_1surf(quick=((2, 3), (3, 2)), thorough=((3, 3), (2, 4), (3, 5))):     # (3, 2): an interior chordwise row (index offsets that coincide for nx = 2)
     out = [dict(nx=nx, ny=ny) for nx, ny in quick]
     out += [dict(nx=nx, ny=ny, _tier=T) for nx, ny in thorough]
     return out
@@ -176,6 +176,7 @@ MULTI = [dict(nx=2, ny=3, symmetry=True, side="left", nsurf=1),
          dict(nx=2, ny=3, symmetry=False, nsurf=1),
          dict(nx=2, ny=2, symmetry=True, side="right", nsurf=3),
          dict(nx=2, ny=3, symmetry=True, side="left", nsurf=2, _tier=T),
+         dict(nx=3, ny=2, symmetry=True, side="right", nsurf=1),
          dict(nx=3, ny=3, symmetry=True, side="right", nsurf=1, _tier=T),
          dict(nx=2, ny=4, symmetry=True, side="left", nsurf=1, _tier=T)]
 MULTI_GP = MULTI + [dict(nx=2, ny=3, symmetry=True, side="left", nsurf=1, groundplane=True),
@@ -226,7 +227,7 @@ _surfs("RotateFromWindFrame", "aerodynamics.pg_wind_rotation.RotateFromWindFrame
 
 # ------------------------------------------------------------------------------------------- structures / transfer
 
-NY = [dict(nx=2, ny=3), dict(nx=2, ny=2, _tier=T), dict(nx=2, ny=4, _tier=T), dict(nx=3, ny=5, _tier=T)]
+NY = [dict(nx=2, ny=3), dict(nx=3, ny=2), dict(nx=2, ny=2, _tier=T), dict(nx=2, ny=4, _tier=T), dict(nx=3, ny=5, _tier=T)]
 TUBE = [dict(model="tube")]
 BOX = [dict(model="wingbox")]
 MODELS = [dict(model="tube"), dict(model="wingbox")]
